@@ -47,12 +47,13 @@ Variable funs : list fundef.           (* the program: function 0 is the entry p
 Definition swrap (v : Z) : Z := Machine.sgn w (Machine.wrap w v).
 Fixpoint ieval (s : store) (o : iopd) : Z :=
   match o with
-  | OLit z => z
+  | OLit _ z => z
   | OVar i => nth i (si s) 0
   | OArith op x y => swrap (arith_sem op (ieval s x) (ieval s y))
   | OUn UNeg x => swrap (- ieval s x)
   | OUn UPos x => ieval s x
   | OGlob g => nth g (sg s) 0
+  | OTrunc x => ieval s x mod 256                    (* (x is byte) is int: truncation to the low byte *)
   | OByte (YSlot j) => nth j (sb s) 0                (* the byte, zero-extended *)
   | OByte (YLow i) => nth i (si s) 0 mod 256          (* the low byte of an int: truncation *)
   end.
@@ -364,14 +365,16 @@ Variable nbg : nat.                (* the number of bool globals *)
 Variable cfb : nat -> nat -> bool.
 Fixpoint oscoped_b (ni nb : nat) (o : iopd) : bool :=
   match o with
-  | OLit z => (- (Machine.W w / 2) <=? z) && (z <? Machine.W w / 2)
+  | OLit ch z => (- (Machine.W w / 2) <=? z) && (z <? Machine.W w / 2) && (negb ch || ((0 <=? z) && (z <=? 255)))
   | OVar i => (i <? ni)%nat
   | OArith op x y => match op with SAdd | SSub | SMul => true | _ => false end && oscoped_b ni nb x && oscoped_b ni nb y
   | OUn _ x => oscoped_b ni nb x
   | OGlob g => (g <? ng)%nat
+  | OTrunc x => oscoped_b ni nb x && match x with OGlob _ | OArith _ _ _ | OUn _ _ => true | _ => false end
   | OByte (YSlot j) => (j <? nb)%nat
   | OByte (YLow i) => (i <? ni)%nat
   end.
+Definition not_trunc_b (o : iopd) : bool := match o with OTrunc _ => false | _ => true end.
 Fixpoint bscoped_b (ni nb : nat) (e : bexpr) : bool :=
   match e with
   | BLit _ => true
@@ -384,13 +387,13 @@ Fixpoint bscoped_b (ni nb : nat) (e : bexpr) : bool :=
 Definition divop_b (op : src_arith) : bool := match op with SDiv | SMod => true | _ => false end.
 Fixpoint sscoped_b (ni nb : nat) (inloop : bool) (s : stmt) : bool :=
   match s with
-  | SDeclI o => oscoped_b ni nb o
+  | SDeclI o => oscoped_b ni nb o && not_trunc_b o
   | SAssignI i o => (i <? ni)%nat && oscoped_b ni nb o
   | SDeclB e => bscoped_b ni nb e
   | SAssignB j e => (j <? nb)%nat && bscoped_b ni nb e
   | SWrite (WrByte o) => oscoped_b ni nb o
   | SWrite _ | SWriteln => true
-  | SWriteI _ o => oscoped_b ni nb o
+  | SWriteI _ o => oscoped_b ni nb o && not_trunc_b o
   | SWriteB _ e => bscoped_b ni nb e
   | SIf c s1 s2 => bscoped_b ni nb c && ssscoped_b ni nb inloop s1 && ssscoped_b ni nb inloop s2
   | SWhile c b k => bscoped_b ni nb c && ssscoped_b ni nb true b && ssscoped_b ni nb inloop k
@@ -399,7 +402,7 @@ Fixpoint sscoped_b (ni nb : nat) (inloop : bool) (s : stmt) : bool :=
   | SDeclDiv op a b => divop_b op && oscoped_b ni nb a && oscoped_b ni nb b
   | SAssignDiv i op a b => (i <? ni)%nat && divop_b op && oscoped_b ni nb a && oscoped_b ni nb b
   | SCall dst f args =>
-      match dst with DAssign i => (i <? ni)%nat | DAssignG g => (g <? ng)%nat | _ => true end && cfb f (length args) && forallb (oscoped_b ni nb) args
+      match dst with DAssign i => (i <? ni)%nat | DAssignG g => (g <? ng)%nat | _ => true end && cfb f (length args) && forallb (oscoped_b ni nb) args && forallb not_trunc_b args
   | SReturn (Some o) => oscoped_b ni nb o
   | SReturn None => true
   | SAssignG g o => (g <? ng)%nat && oscoped_b ni nb o
